@@ -181,7 +181,10 @@ def sigDiff (keys : List String) (a b : Sig) : List String :=
     and an overwrite is a defect of the name the implementation computed. -/
 def anonCause (keys : List String) (a b : Sig) : String :=
   let d := sigDiff keys a b
-  if anonName keys a == anonName keys b then
+  -- written alike in every component, parameter names included: ONE declaration written twice — what is rendered for it is a
+  -- function of the declaration, so two writes of it (from one file) are byte-identical and nothing is lost
+  if d.isEmpty then "identical-declaration"
+  else if anonName keys a == anonName keys b then
     (if d.all (· == "parameter-names") then "duplicate-declaration"
      else if d.all (fun c => c == "parameter-names" || c == "optional") then "anonymous:optional-dropped"
      else if d.all (fun c => c == "parameter-names" || c == "optional" || c == "nested-function") then "anonymous:nested-function"
